@@ -443,55 +443,55 @@ macro_rules! ghost_fs_unit {
     (wrappers, $name:ident, [$(($p:path, $st:path)),*], $body:block) => {
         #[kani::proof]
         $(#[kani::stub($p, $st)])*
-        #[kani::stub(alloc::fmt::format, stub_format)]
-        #[kani::stub(crate::path::Path::display, stub_display)]
+        #[kani::stub(alloc::fmt::format, crate::dedupe::verif_dedupe::stub_format)]
+        #[kani::stub(crate::path::Path::display, crate::dedupe::verif_dedupe::stub_display)]
         #[kani::stub(std::fs::Metadata::len, crate::file::verif_file::stub_metadata_len)]
-        #[kani::stub(FsCommand::maybe_lock, stub_maybe_lock)]
-        #[kani::stub(FsCommand::temp_file, stub_temp_file)]
-        #[kani::stub(FsCommand::unsafe_rename, stub_unsafe_rename)]
-        #[kani::stub(FsCommand::remove, stub_remove)]
-        #[kani::stub(FsCommand::hardlink, stub_hardlink)]
-        #[kani::stub(FsCommand::symlink, stub_symlink)]
-        #[kani::stub(FsCommand::check_can_rename, stub_check_can_rename)]
-        #[kani::stub(FsCommand::mkdirs, stub_mkdirs)]
-        #[kani::stub(FsCommand::unsafe_copy, stub_unsafe_copy)]
-        #[kani::stub(std::fs::remove_file, std_remove_file)]
-        #[kani::stub(std::fs::rename, std_rename)]
-        #[kani::stub(std::fs::hard_link, std_hard_link)]
-        #[kani::stub(std::os::unix::fs::symlink, std_symlink)]
-        #[kani::stub(std::fs::copy, std_copy)]
-        #[kani::stub(std::fs::create_dir_all, std_create_dir_all)]
-        #[kani::stub(std::path::Path::exists, std_exists)]
-        #[kani::stub(std::fs::File::create, std_file_create)]
-        #[kani::stub(std::fs::File::open, std_file_open)]
-        #[kani::stub(std::fs::OpenOptions::open, std_open_options_open)]
-        #[kani::stub(std::fs::write, std_fs_write)]
-        #[kani::stub(std::fs::remove_dir_all, std_remove_dir_all)]
-        #[kani::stub(std::fs::remove_dir, std_remove_dir)]
+        #[kani::stub(crate::dedupe::FsCommand::maybe_lock, crate::dedupe::verif_dedupe::stub_maybe_lock)]
+        #[kani::stub(crate::dedupe::FsCommand::temp_file, crate::dedupe::verif_dedupe::stub_temp_file)]
+        #[kani::stub(crate::dedupe::FsCommand::unsafe_rename, crate::dedupe::verif_dedupe::stub_unsafe_rename)]
+        #[kani::stub(crate::dedupe::FsCommand::remove, crate::dedupe::verif_dedupe::stub_remove)]
+        #[kani::stub(crate::dedupe::FsCommand::hardlink, crate::dedupe::verif_dedupe::stub_hardlink)]
+        #[kani::stub(crate::dedupe::FsCommand::symlink, crate::dedupe::verif_dedupe::stub_symlink)]
+        #[kani::stub(crate::dedupe::FsCommand::check_can_rename, crate::dedupe::verif_dedupe::stub_check_can_rename)]
+        #[kani::stub(crate::dedupe::FsCommand::mkdirs, crate::dedupe::verif_dedupe::stub_mkdirs)]
+        #[kani::stub(crate::dedupe::FsCommand::unsafe_copy, crate::dedupe::verif_dedupe::stub_unsafe_copy)]
+        #[kani::stub(std::fs::remove_file, crate::dedupe::verif_dedupe::std_remove_file)]
+        #[kani::stub(std::fs::rename, crate::dedupe::verif_dedupe::std_rename)]
+        #[kani::stub(std::fs::hard_link, crate::dedupe::verif_dedupe::std_hard_link)]
+        #[kani::stub(std::os::unix::fs::symlink, crate::dedupe::verif_dedupe::std_symlink)]
+        #[kani::stub(std::fs::copy, crate::dedupe::verif_dedupe::std_copy)]
+        #[kani::stub(std::fs::create_dir_all, crate::dedupe::verif_dedupe::std_create_dir_all)]
+        #[kani::stub(std::path::Path::exists, crate::dedupe::verif_dedupe::std_exists)]
+        #[kani::stub(std::fs::File::create, crate::dedupe::verif_dedupe::std_file_create)]
+        #[kani::stub(std::fs::File::open, crate::dedupe::verif_dedupe::std_file_open)]
+        #[kani::stub(std::fs::OpenOptions::open, crate::dedupe::verif_dedupe::std_open_options_open)]
+        #[kani::stub(std::fs::write, crate::dedupe::verif_dedupe::std_fs_write)]
+        #[kani::stub(std::fs::remove_dir_all, crate::dedupe::verif_dedupe::std_remove_dir_all)]
+        #[kani::stub(std::fs::remove_dir, crate::dedupe::verif_dedupe::std_remove_dir)]
         #[kani::unwind(14)]
         fn $name() $body
     };
     (std, $name:ident, [$(($p:path, $st:path)),*], $body:block) => {
         #[kani::proof]
         $(#[kani::stub($p, $st)])*
-        #[kani::stub(alloc::fmt::format, stub_format)]
-        #[kani::stub(crate::path::Path::display, stub_display)]
+        #[kani::stub(alloc::fmt::format, crate::dedupe::verif_dedupe::stub_format)]
+        #[kani::stub(crate::path::Path::display, crate::dedupe::verif_dedupe::stub_display)]
         #[kani::stub(std::fs::Metadata::len, crate::file::verif_file::stub_metadata_len)]
-        #[kani::stub(FsCommand::maybe_lock, stub_maybe_lock)]
-        #[kani::stub(FsCommand::temp_file, stub_temp_file)]
-        #[kani::stub(std::fs::remove_file, std_remove_file)]
-        #[kani::stub(std::fs::rename, std_rename)]
-        #[kani::stub(std::fs::hard_link, std_hard_link)]
-        #[kani::stub(std::os::unix::fs::symlink, std_symlink)]
-        #[kani::stub(std::fs::copy, std_copy)]
-        #[kani::stub(std::fs::create_dir_all, std_create_dir_all)]
-        #[kani::stub(std::path::Path::exists, std_exists)]
-        #[kani::stub(std::fs::File::create, std_file_create)]
-        #[kani::stub(std::fs::File::open, std_file_open)]
-        #[kani::stub(std::fs::OpenOptions::open, std_open_options_open)]
-        #[kani::stub(std::fs::write, std_fs_write)]
-        #[kani::stub(std::fs::remove_dir_all, std_remove_dir_all)]
-        #[kani::stub(std::fs::remove_dir, std_remove_dir)]
+        #[kani::stub(crate::dedupe::FsCommand::maybe_lock, crate::dedupe::verif_dedupe::stub_maybe_lock)]
+        #[kani::stub(crate::dedupe::FsCommand::temp_file, crate::dedupe::verif_dedupe::stub_temp_file)]
+        #[kani::stub(std::fs::remove_file, crate::dedupe::verif_dedupe::std_remove_file)]
+        #[kani::stub(std::fs::rename, crate::dedupe::verif_dedupe::std_rename)]
+        #[kani::stub(std::fs::hard_link, crate::dedupe::verif_dedupe::std_hard_link)]
+        #[kani::stub(std::os::unix::fs::symlink, crate::dedupe::verif_dedupe::std_symlink)]
+        #[kani::stub(std::fs::copy, crate::dedupe::verif_dedupe::std_copy)]
+        #[kani::stub(std::fs::create_dir_all, crate::dedupe::verif_dedupe::std_create_dir_all)]
+        #[kani::stub(std::path::Path::exists, crate::dedupe::verif_dedupe::std_exists)]
+        #[kani::stub(std::fs::File::create, crate::dedupe::verif_dedupe::std_file_create)]
+        #[kani::stub(std::fs::File::open, crate::dedupe::verif_dedupe::std_file_open)]
+        #[kani::stub(std::fs::OpenOptions::open, crate::dedupe::verif_dedupe::std_open_options_open)]
+        #[kani::stub(std::fs::write, crate::dedupe::verif_dedupe::std_fs_write)]
+        #[kani::stub(std::fs::remove_dir_all, crate::dedupe::verif_dedupe::std_remove_dir_all)]
+        #[kani::stub(std::fs::remove_dir, crate::dedupe::verif_dedupe::std_remove_dir)]
         #[kani::unwind(14)]
         fn $name() $body
     };
